@@ -23,6 +23,38 @@ def draw_hash(rng, m_hint=8):
     return {"hash": rng.weighted(HASH_WEIGHTS), "hseed": rng.below(1 << 16), "squeeze": rng.between(1, max(1, min(4, m_hint)))}
 
 
+def api_add(obj, key, alt=False, n=None, force=None, tracked=False, hasher=None):
+    """add through one of the two public spellings: add(key, ...) or add_alt(hashes(key), ...).  Default arguments
+    are left to the library whenever the value asked for is the documented default."""
+    if not alt:
+        if n is not None:
+            return obj.add(key, n)
+        if force is not None:
+            return obj.add(key, force)
+        return obj.add(key)
+    hs = (hasher or obj).hashes(key)
+    args = ([key] if tracked else []) + [hs]
+    if n is not None and n != 1:
+        args.append(n)
+    if force:
+        args.append(True)
+    return obj.add_alt(*args)
+
+
+def api_remove(obj, key, n, alt=False, tracked=False):
+    if not alt:
+        return obj.remove(key, n)
+    hs = obj.hashes(key)
+    args = ([key] if tracked else []) + [hs] + ([n] if n != 1 else [])
+    return obj.remove_alt(*args)
+
+
+def api_check(obj, key, alt=False, hasher=None):
+    if not alt:
+        return obj.check(key)
+    return obj.check_alt((hasher or obj).hashes(key))
+
+
 class Env:
     """What a subject needs from the run: hash strategy, scratch tree, counters."""
 
@@ -115,7 +147,7 @@ class BloomSubject(Subject):
 
     def apply_op(self, st):
         if st["op"] == "add":
-            self.obj.add(seams.key_of(st["k"]))
+            api_add(self.obj, seams.key_of(st["k"]), st.get("alt"))
             self.model[st["k"]] = 1
             self.total_adds += 1
             return None
@@ -156,7 +188,7 @@ class BloomSubject(Subject):
             "geom": [o.number_bits, o.number_hashes, o.estimated_elements, o.bloom_length, o.export_size(),
                      repr(o.false_positive_rate)],
             "count": o.elements_added,
-            "answers": [int(o.check(seams.key_of(k))) for k in self.probe_keys()],
+            "answers": [int(api_check(o, seams.key_of(k), alt=bool(k % 2))) for k in self.probe_keys()],
             "contains": [seams.key_of(k) in o for k in self.probe_keys()[:4]],
         }
 
@@ -219,7 +251,7 @@ class CountingBloomSubject(BloomSubject):
     def apply_op(self, st):
         key = seams.key_of(st["k"]) if "k" in st else None
         if st["op"] == "add":
-            r = self.obj.add(key, st["n"])
+            r = api_add(self.obj, key, st.get("alt"), n=st["n"])
             self.model[st["k"]] = self.model.get(st["k"], 0) + st["n"]
             if st["n"] > 1000:
                 self.cfg["saturated"] = True
@@ -227,7 +259,7 @@ class CountingBloomSubject(BloomSubject):
         if st["op"] == "remove":
             if self.model.get(st["k"], 0) < st["n"] or self.cfg.get("saturated"):
                 return "skip"
-            r = self.obj.remove(key, st["n"])
+            r = api_remove(self.obj, key, st["n"], st.get("alt"))
             self.model[st["k"]] -= st["n"]
             return r
         if st["op"] == "clear":
@@ -263,7 +295,15 @@ class ExpandingSubject(Subject):
     def build(self):
         self.obj = self.cls()(est_elements=self.cfg["est"], false_positive_rate=self.cfg["rate"], hash_function=self.env.hf)
         self.m, self.k = common.geometry(self.cfg["est"], self.cfg["rate"])
+        self.make_hasher()
         return self.obj
+
+    def make_hasher(self):
+        # the expanding / rotating filters expose no hashes(): callers of add_alt / check_alt take the hashes from a
+        # plain BloomFilter of the same sizing and strategy
+        from probables import BloomFilter
+
+        self.hasher = BloomFilter(self.cfg["est"], self.cfg["rate"], hash_function=self.env.hf)
 
     def gen_op(self, rng):
         r = rng.below(20)
@@ -273,7 +313,7 @@ class ExpandingSubject(Subject):
 
     def apply_op(self, st):
         if st["op"] == "add":
-            self.obj.add(seams.key_of(st["k"]), st.get("force", False))
+            api_add(self.obj, seams.key_of(st["k"]), st.get("alt"), force=bool(st.get("force", False)), hasher=self.hasher)
             self.model[st["k"]] = 1
             self.total_adds += 1
             return None
@@ -296,7 +336,7 @@ class ExpandingSubject(Subject):
         return {
             "geom": [o.expansions, o.estimated_elements, repr(common.f32(o.false_positive_rate))],
             "count": o.elements_added,
-            "answers": [int(o.check(seams.key_of(k))) for k in self.probe_keys()],
+            "answers": [int(api_check(o, seams.key_of(k), alt=bool(k % 2), hasher=self.hasher)) for k in self.probe_keys()],
             "contains": [seams.key_of(k) in o for k in self.probe_keys()[:4]],
         }
 
@@ -314,6 +354,7 @@ class RotatingSubject(ExpandingSubject):
         self.obj = self.cls()(est_elements=self.cfg["est"], false_positive_rate=self.cfg["rate"],
                               max_queue_size=self.cfg["mqs"], hash_function=self.env.hf)
         self.m, self.k = common.geometry(self.cfg["est"], self.cfg["rate"])
+        self.make_hasher()
         return self.obj
 
     def gen_op(self, rng):
@@ -355,6 +396,7 @@ class SketchSubject(Subject):
     name = "CountMinSketch"
     ext = "cms"
     mode = "min"
+    tracked = False  # HeavyHitters / StreamThreshold: add_alt / remove_alt take the key as well
 
     @staticmethod
     def gen_cfg(rng):
@@ -409,7 +451,7 @@ class SketchSubject(Subject):
     def apply_op(self, st):
         key = self.key(st["k"]) if "k" in st else None
         if st["op"] == "add":
-            r = self.obj.add(key, st["n"])
+            r = api_add(self.obj, key, st.get("alt"), n=st["n"], tracked=self.tracked)
             self.model[st["k"]] = self.model.get(st["k"], 0) + st["n"]
             self.total += st["n"]
             if st["n"] > 10000:
@@ -419,10 +461,10 @@ class SketchSubject(Subject):
             if st.get("over") and self.cfg.get("negatives") and self.supports_remove():
                 self.cfg["saturated"] = True  # from here on the Counter model no longer bounds removals
                 self.total -= st["n"]
-                return self.obj.remove(key, st["n"])
+                return api_remove(self.obj, key, st["n"], st.get("alt"), tracked=self.tracked)
             if self.model.get(st["k"], 0) < st["n"] or self.cfg.get("saturated") or not self.supports_remove():
                 return "skip"
-            r = self.obj.remove(key, st["n"])
+            r = api_remove(self.obj, key, st["n"], st.get("alt"), tracked=self.tracked)
             self.model[st["k"]] -= st["n"]
             self.total -= st["n"]
             return r
@@ -448,7 +490,7 @@ class SketchSubject(Subject):
         ans = []
         for k in self.probe_keys():
             try:
-                ans.append(o.check(self.key(k)))
+                ans.append(api_check(o, self.key(k), alt=bool(k % 2)))
             except ZeroDivisionError:
                 ans.append("zerodiv")  # mean-min with width 1: outside every statement, but must agree
         return {
@@ -488,6 +530,7 @@ class MeanMinSubject(SketchSubject):
 
 class HeavyHittersSubject(SketchSubject):
     name = "HeavyHitters"
+    tracked = True
 
     def cls(self):
         from probables import HeavyHitters
@@ -506,6 +549,7 @@ class HeavyHittersSubject(SketchSubject):
 
 class StreamThresholdSubject(SketchSubject):
     name = "StreamThreshold"
+    tracked = True
 
     def cls(self):
         from probables import StreamThreshold
